@@ -28,6 +28,7 @@ From Coq Require Import ZArith List Bool.
 From Coq.Strings Require Import Byte String.
 From TS Require Import Bytes Codec State Prog Ops Interp NopSpec StackLemmas SigSpec TimeSpec CodecProofs
   Builders BuilderSpec BuilderSpecC14 BuilderSpecC14b.
+From TS Require BuilderSourcesProofs.
 Import ListNotations.
 Local Open Scope nat_scope.
 
@@ -318,6 +319,21 @@ Print Assumptions C14_chain_lock_exact.
 Print Assumptions C14_chain_accepts_meaning.
 Print Assumptions C14_chain_lock_over_budget.
 Print Assumptions C14_chain_observations.
+(* ---------- the delegation builders as SOURCE (model/BuilderSources.v mirrors the f-string templates of tools.py token for token — 83 Examples
+   against the real .src / .bytes; proofs/BuilderSourcesProofs.v: the template TEXT compiles, for all arguments, to the bytes of
+   model/Builders.v that the theorems above are about; closed statements printed by Check) ---------- *)
+Definition C14_src_delegate_key_lock_compiles := @BuilderSourcesProofs.delegate_key_lock_compiles.
+Definition C14_src_delegate_key_chain_lock_compiles := @BuilderSourcesProofs.delegate_key_chain_lock_compiles.
+Definition C14_src_delegate_key_witness_compiles := @BuilderSourcesProofs.delegate_key_witness_compiles.
+Definition C14_src_delegate_key_chain_witness_compiles := @BuilderSourcesProofs.delegate_key_chain_witness_compiles.
+Check C14_src_delegate_key_lock_compiles.
+Check C14_src_delegate_key_chain_lock_compiles.
+Check C14_src_delegate_key_witness_compiles.
+Print Assumptions C14_src_delegate_key_lock_compiles.
+Print Assumptions C14_src_delegate_key_chain_lock_compiles.
+Print Assumptions C14_src_delegate_key_witness_compiles.
+Print Assumptions C14_src_delegate_key_chain_witness_compiles.
+
 Print Assumptions C14_delegate_lock_exact.
 Print Assumptions C14_delegate_lock_true_iff.
 Print Assumptions C14_end_test_meaning.
